@@ -470,11 +470,11 @@ def run(pid, tier, seed, replay=None):
             import multisec
             mconsts = dict(MaxSec=3 if tier == "thorough" else 2, RowSet={0, 1, 3}, ColSet={1, 2, 3}, HdrSet={"explicit", "none"},
                            FootSet={"none", "table", "para"} if tier == "thorough" else {"none", "table"}, BoolSet={False, True}, NrowSet={3, 40},
-                           BodySet={"own", "shared", "sharedw"})
+                           BodySet={"own", "shared", "sharedw"}, PbSet={"none", "rot"})
             mgot = family.generate(ctx, work, "MultiSec", mconsts, "multisec")
             if pid == "C07":
                 # the border clauses speak about tables with rows: sections without rows are left to C01/C02
-                mgot = [g for g in mgot if all(sec["n"] > 0 for sec in g["secs"])]
+                mgot = [g for g in mgot if all(sec["n"] > 0 for sec in g["secs"]) and g["opts"].get("pb", "none") == "none"]
             mitems = [{"id": k, "secs": g["secs"], "opts": g["opts"], "pred": g["out"]} for k, g in enumerate(mgot)]
             if tier == "quick" and len(mitems) > 1500:
                 mitems = mitems[::max(1, len(mitems) // 1500)]
